@@ -385,7 +385,22 @@ func genParseInput(r *rand.Rand, n *Node, fe string) *Input {
 					vs[i] = nilIn()
 				}
 			}
-			return list(vs...)
+			l := list(vs...)
+			if fe == "map" && n.Elem().K == "prim" && k > 0 && r.Intn(3) == 0 {
+				// a typed Go slice ([]int ...) with zero-valued items among the others: items are PRESENT values in Parse
+				typed := true
+				for i := range vs {
+					if r.Intn(3) == 0 && n.Elem().Ty != "str" {
+						vs[i] = val(0) // (an empty string is an absent value in Parse: not for strings)
+					}
+					typed = typed && vs[i].T == "val" && vs[i].Rep == "nat"
+				}
+				if typed {
+					l = list(vs...)
+					l.Rep = "typed"
+				}
+			}
+			return l
 		case x < 72:
 			return missing()
 		case x < 80:
